@@ -107,6 +107,27 @@ def sec92():
     return "\n".join(out)
 
 
+def sec92b():
+    rp = os.path.join(V, "benign", "RESULTS.json")
+    res = json.load(open(rp)) if os.path.exists(rp) else {}
+    out = ["", "Behaviour-preserving rewrites (`benign/`, written from the property texts alone; the check must stay silent; `tools/benign.py`):", "",
+           "| rewrite | property | what was restructured | kind | check |", "|---|---|---|---|---|"]
+    bd = os.path.join(V, "benign")
+    for d in sorted(os.listdir(bd)) if os.path.isdir(bd) else []:
+        mp = os.path.join(bd, d, "meta.json")
+        if not os.path.exists(mp):
+            continue
+        m = json.load(open(mp))
+        r = res.get(d, {})
+        verdict = []
+        for pid, x in r.items():
+            if isinstance(x, dict):
+                verdict.append("%s: %s" % (pid, "silent" if x.get("quiet") else "ALARM (" + "; ".join(re.sub(r".*kind=", "", v)[:80] for v in x.get("violations", [])[:1]) + ")"))
+        out.append("| %s | %s | %s | %s | %s |" % (d, m.get("property"), str(m.get("title", "")).replace("|", "/")[:200], str(m.get("kind", "")).replace("|", "/").replace("\n", " ")[:120],
+                                                 ", ".join(verdict) or (m.get("note") or "not run")))
+    return "\n".join(out)
+
+
 def sec94():
     out = ["| kind | property | /repo commit | signature | what failed |", "|---|---|---|---|---|"]
     for l in open(os.path.join(V, "known_findings.txt")):
@@ -134,7 +155,7 @@ def main():
     t = t[:e] + "### 9.4 Defects repaired in /repo and findings carried (regenerated from known_findings.txt)\n\nEvery `fixed` row is one unguarded `fix:` commit in /repo (%d so far; the 247 baseline tests pass with all of them), its failing input is in `corpus/`, its reverse diff under `docs/mutations/` makes the property's check fail again. Every `finding` row is a genuine defect that is not repaired (dependency code, or no small safe patch): the check prints one `KNOWN-FINDING:` line for it and still fails on any other violation.\n\n" % sum(len(v) for v in findings()[1].values()) + sec94() + "\n\n" + t[e:]
     t = (t[:a] + "### 9.1 Status per property\n\n(regenerated by `tools/mkstatus.py` from evidence/, Props/, known_findings.txt; MANIFEST.json is the authoritative list of claims)\n\n" + totals() + "\n\n"
          + sec91() + "\n\n" + "### 9.2 Seeded changes and which checks catch them\n\n(regenerated by `tools/mkstatus.py` from seeded/*/meta.json and seeded/RESULTS.json, which `tools/seeded.py` writes: each patch is applied to the tree, the property's quick check is run, the patch is undone)\n\n"
-         + sec92() + "\n\n" + t[c:])
+         + sec92() + "\n" + sec92b() + "\n\n" + t[c:])
     open(p, "w").write(t)
 
 
